@@ -345,7 +345,7 @@ PLANS["C15"] = {
              "the reference model) as on a freshly allocated manager of the new configuration. distinct = distinct "
              "(old configuration, new configuration, jobs in flight bucket, API of H1) tuples; non-trivial = at least "
              "one job in flight at the re-initialisation."),
-    "floors": {"quick": {"reinits": 2500, "jobs_in_flight_at_reinit": 10000, "cov:C15": 300}},
+    "floors": {"quick": {"reinits": 2500, "jobs_in_flight_at_reinit": 10000, "cov:C15": 300, "session_contract_checks": 3000}},
     "assumptions": ["feature flags of a manager are fixed by alloc_mb_mgr(flags); only the init function varies"],
 }
 
